@@ -150,7 +150,9 @@ impl DataType {
                 arrow::datatypes::Field::new("item", ArrowDataType::Int8, false),
             )),
             // Timestamps stored as Int64 (milliseconds since Unix epoch)
-            DataType::Timestamp => ArrowDataType::Int64,
+            DataType::Timestamp => {
+                ArrowDataType::Timestamp(arrow::datatypes::TimeUnit::Millisecond, None)
+            }
         }
     }
 
@@ -163,6 +165,9 @@ impl DataType {
             ArrowDataType::Utf8 | ArrowDataType::LargeUtf8 => Some(DataType::String),
             ArrowDataType::Boolean => Some(DataType::Bool),
             ArrowDataType::Null => Some(DataType::Null),
+            ArrowDataType::Timestamp(arrow::datatypes::TimeUnit::Millisecond, None) => {
+                Some(DataType::Timestamp)
+            }
             // FixedSizeList preserves dimension information
             ArrowDataType::FixedSizeList(field, size)
                 if matches!(field.data_type(), ArrowDataType::Float32) =>
